@@ -504,12 +504,17 @@ def parse_simulate_dir(d: Path, var_names=("heap", "lru", "hostc", "last", "step
             if cur is not None and var is not None:
                 cur[var] = parse_tla_value("\n".join(buf))
             var, buf = None, []
+        action = ""
         for ln in f.read_text().splitlines():
+            ma = re.match(r"^\\\* <([A-Za-z_0-9]+)(?:\(([^)]*)\))?", ln)
+            if ma:
+                action = (ma.group(1), ma.group(2) or "")
+                continue
             if ln.startswith("STATE_"):
                 flush()
                 if cur is not None:
                     states.append(cur)
-                cur = {}
+                cur = {"_action": action}
                 continue
             m = re.match(r"^/\\ ([A-Za-z_][A-Za-z_0-9]*) = (.*)$", ln)
             if m and cur is not None:
